@@ -1,5 +1,6 @@
 import MsPack.Driver.Core
 import MsPack.Cab.Checksum
+import MsPack.Chm.Encint
 import MsPack.Cabx.OutName
 import MsPack.Cabx.Modes
 import MsPack.Lzss.Decoder
@@ -78,6 +79,23 @@ def handle (toks : List String) : HM State Bool := do
         emit s!"prim select {" ".intercalate (idx.map toString)}"
       | _, _ => emit "prim select bad-args"
     | _, _, _ => emit "prim select bad-args"
+    return true
+  | ["prim", "encint", hex] =>
+    -- chmd.c read_encint on the bytes (end = p + len): value, bytes consumed, *err
+    match parseHex hex with
+    | some bs =>
+      match Chm.readEncint bs 0 bs.length with
+      | .ok r => emit s!"prim encint {r.value} {r.pos} {if r.fail then 1 else 0}"
+      | .error f => emit s!"prim encint FAULT {reprStr f}"
+    | none => emit "prim encint bad-args"
+    return true
+  | ["prim", "utf8cmp", ahex, bhex] =>
+    -- chmd.c compare(): sign of the result
+    match parseHex ahex, parseHex bhex with
+    | some a, some b =>
+      let r := Chm.compare a b
+      emit s!"prim utf8cmp {if r < 0 then "-1" else if r > 0 then "1" else "0"}"
+    | _, _ => emit "prim utf8cmp bad-args"
     return true
   | _ => return false
 
